@@ -5,12 +5,16 @@ CONSTANTS
   TokTTL = 1
   MaxMint = 2
   MaxTok = 2
-  MaxCli = 1
+  MaxCli = 0
   S2SameKey = TRUE
+  Explicit = FALSE
+  CHost = "h1"
   Rich = FALSE
   Verifiers <- MCVerifiersS
+  MintPlaces <- MCPlaces3
 INIT Init
 NEXT Next
 VIEW View
 CONSTRAINT Bound
-INVARIANTS TypeOK ServerReports BearerReports TokensProven Integrity ClientReports ClientOpReports KindsSeparate
+INVARIANTS TypeOK TokensProven ClientReports KindsSeparate
+PROPERTIES ServerReports BearerReports Integrity ClientOpReports
